@@ -118,6 +118,32 @@ def run_case(case, drv):
             except Exception as e:  # noqa
                 fp[form] = "raise:" + type(e).__name__
         fps.append(fp)
+    if case["kind"] == "random":
+        # a scalar field of the generator given as a (degenerate) sampler instead of a number: the class declares both; the instance
+        # must be the one the plain number gives (the field is sampled after every other random field, so the stream is the same)
+        import dataclasses
+        from scipy.stats import uniform as _uniform
+        from vrpqubo.examples.mirp_random import get_generator
+        from vrpqubo.tools.sampling import WrapperSampler
+        try:
+            seed_ = {"npint64": np.int64, "npint32": np.int32, "npuint32": np.uint32}.get(case.get("seed_type"), int)(case["seed"])
+            g1 = dataclasses.replace(get_generator(case["ns"], case["nd"], case["horizon"]), seed=seed_, travel_cost_per_unit_time=1.0)
+            g2 = dataclasses.replace(g1, travel_cost_per_unit_time=WrapperSampler(_uniform(loc=1, scale=0)))
+            m1 = g1.get_random_mirp(reset_seed=True)
+            m2 = g2.get_random_mirp(reset_seed=True)
+            s1, s2 = MU.mirp_state(m1), MU.mirp_state(m2)
+            if s1 != s2:
+                a1, a2 = s1["g"]["arcs"], s2["g"]["arcs"]
+                res.fail("generator:sampler-valued-scalar", f"unit travel cost given as a sampler that always draws 1 instead of the number 1: the instance differs "
+                                                            f"(first differing arc {next(((x, y) for x, y in zip(a1, a2) if x != y), None)})")
+            else:
+                o2 = m2.get_path_based()
+                Q2, k2 = o2.get_qubo(feasibility=False)
+                if np.asarray(o2.get_objective_data()[0]).shape != (o2.get_num_variables(),):
+                    res.fail("generator:sampler-valued-scalar", "objective vector of the path-based model has the wrong shape when a scalar field was sampled")
+            res.features.append("sampler-valued-scalar:checked")
+        except Exception as e:  # noqa
+            res.fail("generator:sampler-valued-scalar", f"a generator whose unit travel cost is a sampler (declared Union[Real, Sampleable]) raised {e!r}")
     if fps[0] != fps[1]:
         res.fail("reproducibility:in-process", f"{case['kind']} instance: path-based model differs between two builds in one process with different prior generator states")
     return res
